@@ -8,6 +8,9 @@ import sympy as sp
 from . import AnalysisError
 
 
+SMALL = {"m_e"}
+
+
 def _arms(e):
     """Flatten a (possibly nested) Piecewise into [(expr, [conds...])] with
     the negations of earlier arms made explicit."""
@@ -98,6 +101,10 @@ def is_zero(e, seed=0, points=8):
                 v = -v
             if s.is_integer:
                 v = sp.Integer(rng.randint(1, 9))
+            if s.name in SMALL:
+                # physical side condition: the electron mass is far below any atomic mass,
+                # so ion masses m - charge*m_e stay positive
+                v = sp.Rational(rng.randint(1, 9), 100000)
             pt[s] = v
         try:
             val = d.xreplace(pt)
@@ -115,13 +122,40 @@ def is_zero(e, seed=0, points=8):
     raise AnalysisError(f"could not decide identity of {str(e)[:120]}")
 
 
-def equal(a, b, seed=0, points=8):
+def _factors(e):
+    num = sp.numer(sp.together(sp.sympify(e)))
+    try:
+        return {f for f, _ in sp.factor_list(num)[1]}
+    except Exception:
+        return {num}
+
+
+def _outside(conds, nonzero):
+    """True when an arm's conditions state that a product of quantities assumed
+    nonzero is zero (every factor of the vanishing numerator is such a quantity)."""
+    nzf = set()
+    for nz in nonzero:
+        nzf |= _factors(nz)
+    for c in conds:
+        for a in (c.args if isinstance(c, sp.And) else [c]):
+            if isinstance(a, sp.Eq):
+                l, r = a.args
+                fs = _factors(l - r)
+                if fs and all(f in nzf or (-f) in nzf for f in fs):
+                    return True
+    return False
+
+
+def equal(a, b, seed=0, points=8, nonzero=()):
     """a == b as an identity, arm by arm, using the equalities each arm's
-    condition states (e.g. the 'n == 1' arm of n*f)."""
+    condition states (e.g. the 'n == 1' arm of n*f).  Arms whose condition says
+    that one of *nonzero* vanishes lie outside the specification's domain."""
     a, b = sp.sympify(a), sp.sympify(b)
     diff = a - b
     hows = []
     for ex, conds in _arms(diff):
+        if nonzero and _outside(conds, nonzero):
+            continue
         subs, infeasible = _subs_from(conds)
         if infeasible:
             continue
